@@ -145,9 +145,9 @@ var $newType = (size, kind, string, named, pkg, exported, constructor) => {
                 typ.len = len;
                 typ.comparable = elem.comparable;
                 typ.keyFor = x => {
-                    return Array.prototype.join.call($mapArray(x, e => {
+                    return Array.prototype.map.call(x, e => {
                         return String(elem.keyFor(e)).replace(/\\/g, "\\\\").replace(/\$/g, "\\$");
-                    }), "$");
+                    }).join("$");
                 };
                 typ.copy = (dst, src) => {
                     if (src.length === undefined) {
